@@ -270,7 +270,8 @@ def storm(ch, side, state, worker, rng, quick):
             probe = ch.request("GET", "/v1/replicas" if side == "controller" else "/ping", None, timeout=6)[0] == 200
             after = ch.state_now()
         events.append(dict(n=worker * 100000 + 90000 + rnd, side=side, state=state, method="STORM", path="8 clients x mixed requests",
-                           **{"class": "valid"}, status=(-1 if lost else 200), alive=alive, lockfree=lockfree, probe=probe,
+                           **{"class": "valid"}, status=(-1 if (lost and not (lockfree and probe)) else 200), alive=alive,
+                           lockfree=lockfree, probe=probe,
                            needsbody=False, action="", idok=True, before=(before.get("state") or ""),
                            after=(after.get("state") or ""), exit=(ch.proc.poll() if not alive else 0), body="lost=%d" % lost))
         if not alive or not lockfree or not probe:
